@@ -31,7 +31,7 @@ theorem parseRemaining_bare (P : Params) (vtok : Str) (hv : NumTok vtok) :
 theorem parseRemaining_ts (P : Params) (vtok t : Str) (hv : NumTok vtok) (ht : NumTok t) :
     parseRemainingText P (remText vtok (some t) none) =
       (match P.parseValue vtok with
-       | .ok val => remFinish P val ⟨.timestamp, false, t.reverse, [], [], none⟩
+       | .ok val => remFinish P val ⟨.timestamp, false, false, t.reverse, [], [], none⟩
        | .error e => .error e) := by
   unfold parseRemainingText remText
   simp only [optTok, List.append_nil, splitFirst_append_of_not_mem (space_not_mem_numTok hv), bind, Except.bind]
@@ -40,7 +40,7 @@ theorem parseRemaining_ts (P : Params) (vtok t : Str) (hv : NumTok vtok) (ht : N
   | ok val =>
     simp only []
     have := remLoop_timestamp P t t (tsChars_numTok ht) [] [] [] none
-    rw [show ({} : RAcc) = ⟨.timestamp, false, [], [], [], none⟩ from rfl, this]
+    rw [show ({} : RAcc) = ⟨.timestamp, false, false, [], [], [], none⟩ from rfl, this]
     simp
 
 theorem parseRemaining_ex (P : Params) (vtok : Str) (hv : NumTok vtok) (ts : Option Str) (hts : ∀ t, ts = some t → NumTok t)
@@ -48,7 +48,7 @@ theorem parseRemaining_ex (P : Params) (vtok : Str) (hv : NumTok vtok) (ts : Opt
     (hets : ∀ t, ets = some t → NumTok t) (hlab : parseLabels P.legacy (exBlock L) true = .ok Lp) :
     parseRemainingText P (remText vtok ts (some (L, etok, ets))) =
       (match P.parseValue vtok with
-       | .ok val => remFinish P val ⟨exState ets, false, revOpt ts, etok.reverse, revOpt ets, some Lp⟩
+       | .ok val => remFinish P val ⟨exState ets, false, false, revOpt ts, etok.reverse, revOpt ets, some Lp⟩
        | .error e => .error e) := by
   have hshape : remText vtok ts (some (L, etok, ets)) = vtok ++ ' ' :: (tsPre ts ++ exTail L etok ets) := by
     cases ts <;> simp [remText, optTok, tsPre]
@@ -63,7 +63,7 @@ theorem parseRemaining_ex (P : Params) (vtok : Str) (hv : NumTok vtok) (ts : Opt
 -- what follows the loop ------------------------------------------------------------------------------------------------------
 
 theorem remFinish_ts (P : Params) (val : Num) (t : Str) (ht : t ≠ []) :
-    remFinish P val ⟨.timestamp, false, t.reverse, [], [], none⟩ =
+    remFinish P val ⟨.timestamp, false, false, t.reverse, [], [], none⟩ =
       (match parseTimestamp P t with
        | .ok ts => .ok (val, ts, none)
        | .error e => .error e) := by
@@ -94,7 +94,7 @@ def labelsLen (ls : List (Str × Str)) : Nat := (ls.map (fun kv => kv.1.length +
 
 theorem remFinish_ex (P : Params) (val : Num) (ts : Option Str) (etok : Str) (ets : Option Str) (hets : ∀ t, ets = some t → t ≠ [])
     (Lp : List (Str × Str)) (hlen : labelsLen Lp ≤ 128) :
-    remFinish P val ⟨exState ets, false, revOpt ts, etok.reverse, revOpt ets, some Lp⟩ =
+    remFinish P val ⟨exState ets, false, false, revOpt ts, etok.reverse, revOpt ets, some Lp⟩ =
       (match parseTimestamp P (ts.getD []) with
        | .error e => .error e
        | .ok ots =>
